@@ -102,12 +102,14 @@ def install_cooperative_locks():
 
 
 class BatonScheduler(object):
-    def __init__(self, order, preempts, granularity, watch, max_steps=200000, join_timeout=30.0):
+    def __init__(self, order, preempts, granularity, watch, max_steps=200000, join_timeout=30.0, ticks=None, clock=None):
         self.order = list(order)
         self.pre = {}
         for step, target in preempts:
             self.pre.setdefault(int(step), target)
         self.gran = granularity
+        self.ticks = dict((int(st), dt) for st, dt in (ticks or []))     # yield point -> the simulated clock jumps by dt
+        self.clock = clock
         self.watch = tuple(watch)
         self.max_steps = max_steps
         self.join_timeout = join_timeout
@@ -137,6 +139,10 @@ class BatonScheduler(object):
         if me is None or me != self.current:
             return
         self.steps += 1
+        if self.ticks and self.clock is not None:
+            dt = self.ticks.get(self.steps)
+            if dt:
+                self.clock.advance(dt)
         target = self.pre.get(self.steps)
         if target is None or len(self.alive) < 2 or self.steps > self.max_steps:
             return
